@@ -85,6 +85,12 @@ class SocketServer_Multiplex(object):
         for s in eventsockets:
             if self.shutting_down:
                 return
+            owner = self._owner_of(s)
+            if owner is not self:
+                # a socket of a server whose loop was combined into this one (an external event loop hands us
+                # everything that is ready among our sockets): it is that server's business
+                owner.events([s])
+                continue
             if s is self.sock:
                 # server socket, means new connection
                 conn = self._handleConnection(self.sock)
@@ -101,6 +107,17 @@ class SocketServer_Multiplex(object):
                     self.selector.unregister(s)
                     s.close()
         self.daemon._housekeeping()
+
+    def _owner_of(self, sock):
+        """the server (this one, or one combined into this one's loop) that the socket belongs to"""
+        if self.selector_is_shared or len(self.selector.get_map() or ()) > 1:
+            try:
+                owner = self.selector.get_key(sock).data
+            except (KeyError, ValueError):
+                return self
+            if owner is not None and hasattr(owner, "events"):
+                return owner
+        return self
 
     def _handleConnection(self, sock):
         try:
